@@ -137,7 +137,16 @@ func c04RunPath(cfg c04Config, id string, steps []c04Step, foreign string, share
 				return
 			}
 		case "never":
-			switch st.Variant % 4 {
+			switch st.Variant % 5 {
+			case 4:
+				// a case variant of a live id (ids are opaque: it was never issued)
+				sent = randHex(16)
+				for _, live := range real {
+					if live != "" && strings.ToUpper(live) != live {
+						sent = strings.ToUpper(live)
+						break
+					}
+				}
 			case 0:
 				sent = randHex(16)
 			case 1:
